@@ -26,7 +26,9 @@ import json
 import struct
 from ipaddress import IPv4Address
 
-RULE = ("1..4 self-consistent simulated devices x 1..5 services of real pyatv service types, rendered to "
+RULE = ("1..4 self-consistent simulated devices x 1..5 services of real pyatv service types (single services may "
+        "lack an identifier next to services that have one; _airport/_sleep-proxy services mixed in; dedicated "
+        "cases with one datagram per service so that every parser-table order occurs), rendered to "
         "response datagrams; all permutations of up to 5 (quick) / 6 (thorough) datagrams, sampled beyond, "
         "each with random duplication; multicast and unicast scanner; non-trivial = >=2 datagrams, a "
         "configuration is returned and the delivery order differs from the reference order or has a "
@@ -514,36 +516,57 @@ MODELS = ["AppleTV6,2", "AppleTV5,3", "AudioAccessory5,1", "NoSuchModel1,1"]
 INTERNAL = ["J105aAP", "J42dAP", "K66AP", "X999AP"]
 
 
-def gen_device(rng, idx, allow_noid=True):
+def gen_device(rng, idx, allow_noid=True, mixed=None, nsvc=None):
     """One self-consistent device: unique address/host/names; services of one pyatv protocol agree on
-    port, identifier and shared property keys; all services yield the same name; one model."""
+    port, identifier and shared property keys; all services yield the same name; one model.
+    Single services may lack a unique identifier while others of the same device have one (Companion
+    without rpMRtID, RAOP announced as plain "name" without pk, AirPlay without deviceid, MRP without
+    UniqueIdentifier); `_airport` / `_sleep-proxy` services (registered types that never yield a
+    service) may stand next to them.  `mixed=True` forces such a mixture."""
     a = idx + 1
     name = "Dev%d" % a
     mac = "AA:BB:CC:00:00:%02X" % a
-    kinds = rng.sample([T_MRP, T_AIRPLAY, T_RAOP, T_COMPANION, T_TOUCH, T_ATV2, T_HSCP], rng.randint(1, 5))
-    noid = allow_noid and rng.chance(0.15)
-    emptyid = allow_noid and not noid and rng.chance(0.08)
+    pool = [T_MRP, T_AIRPLAY, T_RAOP, T_COMPANION, T_TOUCH, T_ATV2, T_HSCP]
+    if mixed is None:
+        mixed = rng.chance(0.35)
+    kinds = rng.sample(pool, nsvc or rng.randint(1, 5))
+    noid = allow_noid and not mixed and rng.chance(0.15)
+    emptyid = allow_noid and not mixed and not noid and rng.chance(0.08)
+    # identifier dropped for single (non-DMAP: one type per protocol) services
+    single = [t for t in kinds if t in (T_MRP, T_AIRPLAY, T_RAOP, T_COMPANION)]
+    drop = set()
+    if mixed:
+        if not single:
+            kinds[rng.randrange(len(kinds))] = T_COMPANION
+            single = [T_COMPANION]
+        if len(kinds) == 1:
+            kinds.insert(rng.randint(0, 1), rng.choice([t for t in pool if t not in kinds]))
+            single = [t for t in kinds if t in (T_MRP, T_AIRPLAY, T_RAOP, T_COMPANION)]
+        maxdrop = len(single) if len(kinds) > len(single) else len(single) - 1
+        drop = set(rng.sample(single, rng.randint(1, max(1, maxdrop))))
     has_hscp = T_HSCP in kinds
     model = None if has_hscp or rng.chance(0.3) else rng.choice(MODELS)
     dmap_port = 3689 + a
     dmap_id = "DMAP%04d" % a
     shared = [("sharedkey", "s%d" % a)] if rng.chance(0.5) else []
     services = []
+    has_id = False
     for t in kinds:
         props, inst, port = [], name, 7000 + 10 * a + t
+        none = noid or t in drop
         if t == T_MRP:
-            props = [("Name", name)] + ([] if noid else [("UniqueIdentifier", "" if emptyid else "MRP-%d" % a)])
+            props = [("Name", name)] + ([] if none else [("UniqueIdentifier", "" if emptyid else "MRP-%d" % a)])
             if rng.chance(0.5):
                 props.append(("AllowPairing", "YES"))
         elif t == T_AIRPLAY:
-            props = ([] if noid or emptyid else [("deviceid", mac)]) + ([("model", model)] if model else [])
+            props = ([] if none or emptyid else [("deviceid", mac)]) + ([("model", model)] if model else [])
             props.append(("features", "0x5A7FFFF7,0x1E"))
         elif t == T_RAOP:
-            inst = name if noid or emptyid else "AABBCC0000%02X@%s" % (a, name)
+            inst = name if none or emptyid else "AABBCC0000%02X@%s" % (a, name)
             props = [("am", model)] if model else []
             props.append(("tp", "UDP"))
         elif t == T_COMPANION:
-            props = ([] if noid or emptyid else [("rpMRtID", "CID-%d" % a)]) + ([("rpMd", model)] if model else [])
+            props = ([] if none or emptyid else [("rpMRtID", "CID-%d" % a)]) + ([("rpMd", model)] if model else [])
             props.append(("rpFl", "0x36782"))
         elif t == T_TOUCH:
             inst = ("_x%d" % a) if noid or emptyid else dmap_id + "_touch"
@@ -555,14 +578,22 @@ def gen_device(rng, idx, allow_noid=True):
             inst = "hscp%d" % a
             props = [("Machine Name", name), ("hG", "0000-%d" % a), ("Machine ID", "" if noid or emptyid else dmap_id)]
             port = dmap_port
+        if not (none or emptyid or noid):
+            has_id = True
         props = props + shared
         if rng.chance(0.3):
             props.append(("extra%d" % t, "v%d" % rng.randint(0, 2)))
         services.append({"type": t, "inst": inst, "port": port, "props": props})
+    # registered types whose handler never yields a service (no identifier by construction)
+    if rng.chance(0.5 if mixed else 0.15) and len(services) < 6:
+        t = rng.choice([T_AIRPORT, T_SLEEP])
+        extra = {"type": t, "inst": name if t == T_AIRPORT else "70-35-60-63.1 %s" % name,
+                 "port": 5009 if t == T_AIRPORT else 61000 + a, "props": [("syAP", "115")] if t == T_AIRPORT else []}
+        services.insert(rng.randint(0, len(services)), extra)
     dev = {"addr": a, "host": a, "services": services, "name": name,
-           "expect_absent": noid or emptyid,
+           "expect_absent": not has_id,
            "info": rng.choice(INTERNAL) if rng.chance(0.5) else None,
-           "linklocal": rng.chance(0.3), "sleeping": rng.chance(0.2),
+           "linklocal": rng.chance(0.3), "sleeping": rng.chance(0.2) and not mixed,
            "ttl": rng.choice([10, 120, 4500])}
     return dev
 
@@ -653,6 +684,42 @@ def gen_case_u(rng, ndev, protoset=None, short=False):
     hosts = [d["addr"] for d in devs] + ([9] if rng.chance(0.2) else [])
     return {"mode": "u", "protoset": protoset, "hosts": hosts, "enc": rng.choice(["r", "c"]), "dgrams": dgrams,
             "absent": [d["addr"] for d in devs if d["expect_absent"]], "consistent": True}
+
+
+def gen_case_mixed(rng, mode, nsvc):
+    """Devices mixing services with and without identifier, ONE datagram per service, so that the
+    permutations of the datagrams realise every order of the parser table / of `found_device.services`.
+    A second host that only has identifier-less services may answer too (must never be returned)."""
+    from pyatv.core import mdns
+    from pyatv.support import dns
+    dev = gen_device(rng, 0, mixed=True, nsvc=nsvc)
+    devs = [dev]
+    if rng.chance(0.4):
+        lone = gen_device(rng, 1, mixed=False, nsvc=1)
+        lone["services"] = [{"type": T_COMPANION, "inst": lone["name"], "port": 7021, "props": [("rpFl", "0x36782")]}]
+        lone["expect_absent"], lone["sleeping"] = True, False
+        devs.append(lone)
+    dgrams = []
+    if mode == "m":
+        for d in devs:
+            for s in d["services"]:
+                dgrams.append({"src": d["addr"], "tag": len(dgrams), "recs": svc_records(d, s)})
+        hosts, protoset = [], None
+    else:
+        protoset = None
+        nq = len(mdns.create_service_queries(make_scanner(protoset).services, dns.QueryType.PTR))
+        for d in devs:
+            buckets = [[] for _ in range(nq)]
+            where = list(range(nq))
+            rng.shuffle(where)
+            for k, s in enumerate(d["services"]):
+                buckets[where[k % nq]] += [r for r in svc_records(d, s) if r not in buckets[where[k % nq]]]
+            for q in range(nq):
+                dgrams.append({"src": d["addr"], "tag": q, "recs": buckets[q]})
+        hosts = [d["addr"] for d in devs]
+    return {"mode": mode, "protoset": protoset, "hosts": hosts, "enc": rng.choice(["r", "c"]), "dgrams": dgrams,
+            "absent": [d["addr"] for d in devs if d["expect_absent"]],
+            "present": [d["addr"] for d in devs if not d["expect_absent"]], "consistent": True}
 
 
 def gen_case_inconsistent(rng, mode):
@@ -874,6 +941,14 @@ def run(ctx, only=None):
         n = len(desc["dgrams"])
         evaluate(ctx, desc, orders_for(r, n, full, samples, 2), "consistent")
         unrequested_check(ctx, r, desc)
+    # 2b. devices mixing services with and without identifier, one datagram per service: every order of
+    #     the parser table / of the found device's service list
+    for i in range(ctx.scale(6, 24)):
+        r = rng.fork("mix", i)
+        mode = "mmu"[i % 3]
+        desc = gen_case_mixed(r, mode, 2 + i % 4 if mode == "m" else 2 + i % 3)
+        n = len(desc["dgrams"])
+        evaluate(ctx, desc, orders_for(r, n, full, samples * 2, 1), "mixed-identifiers")
     # 3. contradictory data: correspondence only
     for i in range(ctx.scale(10, 40)):
         r = rng.fork("x", i)
